@@ -1,6 +1,7 @@
 package main
 
 import (
+	"crypto/tls"
 	"fmt"
 	"os"
 	"sync"
@@ -45,6 +46,7 @@ type envOpts struct {
 	KeepOpen  bool
 	FailOnce  bool
 	WS        bool // XMPP over WebSocket instead of TCP
+	TLS       bool // the session is negotiated over STARTTLS (in-process CA); TCP only
 }
 
 func newSessEnv(w *tr.Writer, tid int, o envOpts) (*sessEnv, error) {
@@ -84,6 +86,11 @@ func newSessEnv(w *tr.Writer, tid int, o envOpts) (*sessEnv, error) {
 		KeepaliveInterval:      ka,
 		ConnectTimeout:         1,
 	}
+	if o.TLS && !o.WS {
+		cfg.TLSConfig = &tls.Config{RootCAs: srv.GetPKI().Pool}
+		cfg.Insecure = false
+		cfg.TransportConfiguration.Domain = "localhost"
+	}
 	if o.Logger {
 		f, err := os.CreateTemp("", "verif-streamlog-*")
 		if err != nil {
@@ -108,6 +115,10 @@ func newSessEnv(w *tr.Writer, tid int, o envOpts) (*sessEnv, error) {
 	}
 	negc := make(chan negOut, 1)
 	nopts := srv.NegotiateOpts{SM: o.SM, SMID: sessSMID, Resume: true, StreamID: "sid-1", Jid: "test@localhost/res"}
+	if o.TLS && !o.WS {
+		cert := srv.GetPKI().Certs["valid"]
+		nopts.TLSCert = &cert
+	}
 	go func() {
 		if o.WS {
 			conn, err := env.wssrv.Accept(5 * time.Second)
